@@ -10,7 +10,7 @@ SW = cgw.SOFTWARE
 
 class Check(PropertyCheck):
     pid = "C11"
-    gen_files = ["GenAsh", "GenProto", "GenGatewayFn"]
+    gen_files = ["GenAsh", "GenProto", "GenGatewayFn", "GenAshFn", "GenGatewayAsyncFn"]
     model_imports = ["gen.GenAsh", "model.Gateway"]
     run_expr = "run_gateway_case"
     case_type = "(list (N * list (N * N)))"
